@@ -717,6 +717,11 @@ fn pending_entries_from_live_events<'a>(
         Some(Ev::Scalar { location, .. }) => {
             Err(merge_value_error(*location, merge_reference_location))
         }
+        Some(Ev::MapStart { location, .. }) if *location == merge_reference_location => {
+            // A mapping written in place: its entries are read from the live source, which
+            // still knows the alias token of a value like `<<: {a: *x}`.
+            collect_entries_from_map(ev, merge_reference_location, dup_policy)
+        }
         Some(Ev::MapStart { .. }) => {
             let mut node = capture_node(ev)?;
             pending_entries_from_events(
@@ -738,6 +743,18 @@ fn pending_entries_from_live_events<'a>(
                     Some(_) => {
                         let _ = ev.peek()?;
                         let element_ref_loc = ev.reference_location();
+                        let written_in_place = matches!(
+                            ev.peek()?,
+                            Some(Ev::MapStart { location, .. }) if *location == element_ref_loc
+                        );
+                        if written_in_place {
+                            batches.push(collect_entries_from_map(
+                                ev,
+                                element_ref_loc,
+                                dup_policy,
+                            )?);
+                            continue;
+                        }
                         let mut element = capture_node(ev)?;
                         batches.push(pending_entries_from_events(
                             element.take_events(),
@@ -820,13 +837,21 @@ fn collect_entries_from_map<'a>(
                         dup_policy,
                     )?);
                 } else {
+                    // (Taken before the value is captured: capturing expands an alias to the
+                    // events of its anchor, and only the live source knows the alias token.)
+                    let _ = ev.peek()?;
+                    let value_reference_location = ev.reference_location();
                     let value = capture_node(ev)?;
                     let fingerprint = key.fingerprint().into_owned();
                     let location = key.location();
-                    let reference_location = if written_in_place {
+                    let reference_location = if !written_in_place {
+                        reference_location
+                    } else if value_reference_location == reference_location {
+                        // (a replay of the mapping that reports the mapping itself for every
+                        // node: the value's own position is all that is known)
                         value.location()
                     } else {
-                        reference_location
+                        value_reference_location
                     };
                     let entry = Some(PendingEntry {
                         key,
@@ -2664,7 +2689,16 @@ impl<'de, 'e> de::Deserializer<'de> for YamlDeserializer<'de, 'e> {
 
                 if let Some(events) = self.pending_value.take() {
                     let (events, reference_location) = events;
-                    let mut replay = ReplayEvents::with_reference(events, reference_location);
+                    // A value that is used where it is written has no use site of its own: the
+                    // nodes inside it are then referenced where they stand, too. Only a value
+                    // reached through an alias or an aliased merge carries its use site along.
+                    let used_in_place =
+                        events.first().map(|e| e.location()) == Some(reference_location);
+                    let mut replay = if used_in_place {
+                        ReplayEvents::new(events)
+                    } else {
+                        ReplayEvents::with_reference(events, reference_location)
+                    };
 
                     // Definition-site location: where the node is defined in the YAML.
                     // For aliases, this will point at the anchor definition.
